@@ -1,17 +1,51 @@
-"""C05 - throw-away development driver (the coordinator owns the real one): function-level part only."""
-from . import c05_fn
+"""C05 - each update routine changes only the component it trains."""
+import json
+import os
+
+from .. import sweep, tlc
 
 LEVEL = "model_checking"
+MANIFEST = dict(
+    category="model_checking",
+    text="Components.tla: per algorithm family the set of components (online networks, optimiser states, targets, embeddings, temperature, checkpoint copies) with version counters; one action per update routine with the documented trained set; TLC checks the frame conditions as action properties (nothing outside the trained set changes; a non-zero gradient changes the trained component; evaluating a loss or acting changes nothing) and refutes deviations. TLC-generated call sequences are replayed into the real update routines with tiny real networks and the content digest of every reachable module compared before/after. Inside recorded training runs LoopTrace.tla checks, at every event, that storing and acting change nothing, that nothing changes outside learning segments and that per segment exactly the components made due by the routine's documented rules changed (TrainedOnlyWhenDue, UpdateMissing, ChangeOutsideLearning, StoringChangesNothing, ActingChangesNothing).",
+    note="structural property: seeded generic batches, not all parameter values; run-level rules only for routines whose update structure is step- or iteration-periodic; trusted: digests, recording wrappers, TLC",
+    technique="TLA+ spec + TLC; call-sequence replay into the real update routines with bitwise digests; trace validation of recorded training runs",
+)
+
+
+def _fn_enabled():
+    return "c05_fn" in open(os.path.join(os.path.dirname(__file__), "..", "..", "tools", "parts_enabled.txt")).read().split()
 
 
 def run(rep):
-    c05_fn.run_fn(rep)
+    for m in ("LoopClauses", "LoopTrace"):
+        tlc.sany(m)
+    traces, out = sweep.report_property(rep, "C05")
+    ruled = [t for t in traces if t["cfg"].get("rules")]
+    if not ruled:
+        raise tlc.MachineryError("no recorded run carries update rules (vacuous)")
+    segs = sum(1 for t in ruled for e in t["events"] if e["ev"] == ("sample" if t["cfg"].get("segment") == "sample" else "add"))
+    rep.extra["trace_part"] = {"routines_with_rules": sorted({t["cfg"]["routine"] for t in ruled}), "learning_segments_checked": segs, "events_checked": sum(len(t["events"]) for t in traces)}
+    if _fn_enabled():
+        from . import c05_fn
+
+        c05_fn.run_fn(rep)
+    else:
+        rep.evaluations = sum(len(t["events"]) for t in traces)
+        rep.distinct = segs
+        rep.rule = "one case = one event of a recorded run (frame clauses) ; non-trivial = learning segments judged against the routine's update rules"
+        rep.sample({"trace": ruled[0]["id"], "rules": ruled[0]["cfg"]["rules"]})
+        rep.assumptions.append("function-level part (Components.tla) not enabled in this build")
 
 
 def replay(path, rep):
-    import json
+    d = json.load(open(path))["replay"]
+    if isinstance(d, dict) and d.get("kind") == "sweep":
+        rc = sweep.replay_one(d, "C05")
+    else:
+        from . import c05_fn
 
-    r = c05_fn.replay_fn(json.load(open(path))["replay"], rep)
-    if r:
-        print("VIOLATION property=C05 replay=" + path)
-    return r
+        rc = c05_fn.replay_fn(d, rep)
+    if rc:
+        print(f"VIOLATION property=C05 replay={path}")
+    return rc
